@@ -556,8 +556,21 @@ def run(run):
         if rng.random() < 0.3:
             fields.append({'tail': T.TrailingByteArray})
         pid = rng.choice((0, 1, 0x7F, 0x80, 0x3FFF, 0x4000))
-        K = type('GenPacket%d' % i, (Packet,), {
-            'id': pid, 'packet_name': 'generated', 'definition': fields})
+        # the layout is declared on a direct Packet subclass, or on a subclass
+        # of a library packet class that has a version-dependent layout of its
+        # own (the declared list then replaces the inherited one), or on the
+        # instance
+        base_kind = i % 4
+        if base_kind == 1:
+            base = rng.choice((clientbound.play.ChatMessagePacket,
+                               clientbound.play.JoinGamePacket,
+                               serverbound.play.KeepAlivePacket))
+            K = type('GenPacket%d' % i, (base,), {
+                'packet_name': 'generated', 'definition': fields})
+            run.count('programs_on_library_subclasses')
+        else:
+            K = type('GenPacket%d' % i, (Packet,), {
+                'id': pid, 'packet_name': 'generated', 'definition': fields})
         pv = rng.choice(minecraft.SUPPORTED_PROTOCOL_VERSIONS)
         ctx = ConnectionContext(protocol_version=pv)
         attrs, cmps = {}, []
